@@ -752,6 +752,8 @@ def correspondence(ctx):
 
 
 def oracle(ctx):
+    from props import c04_registry
+    c04_registry.run(ctx, ctx.n(60, 2000))
     # step D runs inside _run on the same decodes; search mode adds fresh ones (real code only)
     if ctx.search_mode:
         _run(ctx, "search", ctx.n(4000, 40000), False)
